@@ -60,6 +60,74 @@ def tsig_calls(fn, setters):
     return out
 
 
+def _table_by_provenance(F, vt, ve):
+    """{outcome: (rcode, tsig error, mode variant, mode text, block)} when the three values are decided in separate steps:
+    each value that reaches set_rcode / the prepared TSIG RR / the TSIG mode is traced to the statements that produced it,
+    and each such statement is attributed to the outcomes (arms of the match on verify_request's result) it is reached
+    under.  {} if any value cannot be attributed."""
+    from qv import origins
+    setters = tsig_setters(F)
+    st_ = tsig_calls(vt, setters)
+    sr = calls_in(vt, W + 'set_rcode')
+    if len(st_) != 1 or len(sr) != 1:
+        return {}
+    prep_op = st_[0][3]
+    pd = vt.single_def(prep_op['pl']['l']) if is_place(prep_op) and not prep_op['pl']['p'] else None
+    if not pd or pd[2] != 'call' or not callee_name(pd[3]).endswith('PreparedTsigRr::new_from_read') or len(pd[3]['args']) < 4:
+        return {}
+
+    def outcomes(b):
+        res = set()
+        for gs in paths.reaching_guard_sets(vt, b):
+            got = None
+            for x in gs:
+                if re.match(r'^discr\(ReadTsigRr::verify_request\(arg1,arg2,arg3,arg4,arg5\)\) in \[0\]$', x):
+                    got = {'Ok'}
+                m = re.match(r'^discr\(ReadTsigRr::verify_request\(arg1,arg2,arg3,arg4,arg5\)@Err\.0\) in \[([\d, ]+)\]$', x)
+                if m:
+                    got = {ve[int(v)] for v in m.group(1).split(',')}
+                m = re.match(r'^discr\(ReadTsigRr::verify_request\(arg1,arg2,arg3,arg4,arg5\)@Err\.0\) not in \[([\d, ]+)\]$', x)
+                if m:
+                    got = set(ve) - {ve[int(v)] for v in m.group(1).split(',')}
+            if got is None:
+                return None
+            res |= got
+        return res
+
+    def per_outcome(o, at):
+        if not is_place(o):
+            return None
+        c = vt.canon(o['pl'])
+        out = {}
+        for lf in origins.trace(vt, c['l'], origins.norm_path(c['p']), at=at):
+            if lf[0] == 'const':
+                v, b = paths.show_operand(vt, lf[1]), lf[2]
+            elif lf[0] == 'rv' and lf[3].get('k') == 'agg':
+                v, b = '%s{%s}' % (paths.short(lf[3]['def']), ','.join(paths.show_operand(vt, x) for x in lf[3]['ops'])), lf[1]
+            elif lf[0] == 'rv' and lf[3].get('k') == 'use':
+                v, b = paths.show_operand(vt, lf[3]['op']), lf[1]
+            else:
+                return None
+            oc = outcomes(b)
+            if not oc:
+                return None
+            for k in oc:
+                if k in out and out[k] != (v, b):
+                    return None
+                out[k] = (v, b)
+        return out
+    rc = per_outcome(sr[0][1]['args'][1], (sr[0][0], None))
+    er = per_outcome(pd[3]['args'][3], (pd[0], None))
+    md = per_outcome(st_[0][2], (st_[0][0], None))
+    if not rc or not er or not md or not (set(rc) == set(er) == set(md)):
+        return {}
+    rows = {}
+    for k in rc:
+        mode = re.match(r'^(?:writer::)?TsigMode::(\w+)', md[k][0])
+        rows[k] = (rc[k][0], er[k][0], mode.group(1) if mode else md[k][0], md[k][0], md[k][1])
+    return rows
+
+
 def check(R, F):
     # ---- (a) order in verification_core
     vc = F.fn(TS + "ReadTsigRr::<'_>::verification_core")
@@ -115,6 +183,8 @@ def check(R, F):
                 rows[key] = (ops[0], ops[1], mode.group(1) if mode else ops[2], ops[2], b)
     spec = {'Ok': ('Rcode(0_u8)', 'ExtendedRcode(0_u16)', 'Response'), 'BadSig': ('Rcode(9_u8)', 'ExtendedRcode(16_u16)', 'Unsigned'),
             'BadTime': ('Rcode(9_u8)', 'ExtendedRcode(18_u16)', 'Response'), 'FormErr': ('Rcode(1_u8)', 'ExtendedRcode(16_u16)', 'Unsigned')}
+    if not rows:
+        rows = _table_by_provenance(F, vt, ve)
     if not rows:
         # the rule reads the table off one (rcode, error, mode) tuple per outcome; a function that decides the three in
         # separate steps is a different program shape that it does not decide
